@@ -73,6 +73,6 @@ PROPS = {
                         "journal cuts do not split a group of raft.meta writes unless the case has split_meta (that is lib/raftlog's subject, C17); the order of file operations of concurrent goroutines inside one flush is a race in the code and not controlled",
                         "integers inside +-2^53, no NaN/Inf"],
         "quick": {"runs": 6000, "budget_s": 230, "workers": 14},
-        "thorough": {"runs": 36000, "budget_s": 2400, "workers": 16},
+        "thorough": {"runs": 36000, "budget_s": 1500, "workers": 16},
     },
 }
